@@ -15,7 +15,7 @@ META = {
     "design_ref": "DESIGN.md §4 C17",
     "technique": "Coq proof (reflection of Python's int/float/NaN comparisons into an order on extended rationals, case analysis of the guard chain) + grid correspondence (1-way, 2-way, random 3-way and all-random) evaluated by vm_compute on exact rational values",
     "level_text": "Theorems on the Gallina model of the grafting/preconditioner config __post_init__ guards, the guard chain of DistributedShampoo.__init__ (in code order, with the two -1 substitutions) and the three type dispatches: for every configuration whose max_preconditioner_dim is a Python int < 2^63 and whose num_tolerated_failed_amortized_computations is not NaN (platform_typed), construction succeeds iff the configuration is in the documented domain (ctor_accepts_iff_documented, ctor_classify), raises ValueError outside the ranges and only there, NotImplementedError for an unsupported config type inside the ranges, and stores beta1 / precondition_frequency for beta3 = -1 / start = -1 (ctor_defaults, ctor_resolved_in_range).  The unguarded iff is refuted on the faithful model in both directions (ctor_accepts_iff_documented_refuted_mpd: max_preconditioner_dim = 2^63 is >= 1 but torch.split overflows; ctor_accepts_iff_documented_refuted_nan: num_tolerated = NaN passes `if x < 0`); both witnesses are replayed on /repo in every run.  The model is tied to /repo by the full one-at-a-time and two-at-a-time grid over {boundary, interior, +-1 ulp / +-1, far outside, +-inf, NaN, int-vs-float} per hyperparameter around two valid baselines, plus random 3-way and all-random configurations; outcome class and the resolved param_groups[0] defaults are compared exactly inside coqc.",
-    "level_note": "Trusted: Coq kernel + vm_compute; the hand-written model (checked against the code only on the generated grid); one parameter group with one dense 2x3 parameter; distributed_config is None or an unsupported type (the supported distributed configs need a process group and are not constructed); bool-typed and dtype arguments are not validated by the code and not varied; which ValueError guard fired is compared only informationally (by message keyword).",
+    "level_note": "Trusted: Coq kernel + vm_compute; the hand-written model (checked against the code only on the generated grid); the model has one dense parameter in one group, and its claim that nothing else matters is exercised by a harness-only `variant` axis (parameter shapes/dtypes, two groups, the unvalidated flags and preconditioner_dtype, omitted arguments = documented defaults, shared/reused config objects) and a real DDPShampooConfig on a 1-process gloo group; the sharded distributed configs are not constructed (see not_exercised in the evidence); per-group overrides in params=[{...}] are neither validated nor resolved by the code and are only probed; which ValueError guard fired is compared only informationally (by message keyword).",
     "ready": True,
 }
 
@@ -231,6 +231,7 @@ def _impl():
         import torch
         from distributed_shampoo import distributed_shampoo as ds
         from distributed_shampoo import shampoo_types as st
+        import matrix_functions_types as mft
         from matrix_functions_types import QRConfig
 
         logging.disable(logging.CRITICAL)
@@ -247,7 +248,7 @@ def _impl():
         class OtherDistributedConfig(st.DistributedConfig):
             pass
 
-        _IMPL.update(torch=torch, ds=ds, st=st, QRConfig=QRConfig, OtherPC=OtherPreconditionerConfig, OtherG=OtherGraftingConfig, OtherD=OtherDistributedConfig)
+        _IMPL.update(torch=torch, ds=ds, st=st, QRConfig=QRConfig, mft=mft, OtherPC=OtherPreconditionerConfig, OtherG=OtherGraftingConfig, OtherD=OtherDistributedConfig)
     return _IMPL
 
 
@@ -262,45 +263,132 @@ GUARD_BY_MSG = [
 ]
 
 
+# documented defaults (docstring of DistributedShampoo / of the config dataclasses), used by the "omit_defaults" variant
+DOC_DEFAULTS = dict(lr=1e-2, beta1=0.9, beta2=1.0, beta3=-1.0, epsilon=1e-12, momentum=0.0, dampening=0.0, weight_decay=0.0, mpd=1024, freq=1, start=-1, iro=0)
+DOC_GRAFT_DEFAULTS = {"adagrad": dict(geps=1e-10), "rmsprop": dict(geps=1e-10, gb2=0.99), "adam": dict(geps=1e-10, gb2=0.999)}
+KWNAME = dict(lr="lr", beta3="beta3", epsilon="epsilon", momentum="momentum", dampening="dampening", weight_decay="weight_decay", mpd="max_preconditioner_dim",
+              freq="precondition_frequency", start="start_preconditioning_step", iro="inv_root_override")
+
+
+def _is(c, a, v) -> bool:
+    return enc(c[a]) == enc(v)
+
+
+def _make_params(m, variant):
+    torch = m["torch"]
+    P = lambda shape, **k: torch.nn.Parameter(torch.zeros(shape, **k))   # noqa: E731
+    kinds = {
+        "param_0d": lambda: [P(())], "param_1d": lambda: [P((5,))], "param_3d": lambda: [P((2, 3, 4))], "param_two": lambda: [P((2, 3)), P((4,))],
+        "param_f64": lambda: [P((2, 3), dtype=torch.float64)], "param_bf16": lambda: [P((2, 3), dtype=torch.bfloat16)], "param_f16": lambda: [P((2, 3), dtype=torch.float16)],
+        "param_empty": lambda: [P((0, 3))], "param_nograd": lambda: [torch.nn.Parameter(torch.zeros(2, 3), requires_grad=False)], "param_1x1": lambda: [P((1, 1))],
+        "dict_params": lambda: [{"params": [P((2, 3))]}], "two_groups": lambda: [{"params": [P((2, 3))]}, {"params": [P((3, 2))]}],
+    }
+    return kinds.get(variant, lambda: [P((2, 3))])()
+
+
 def run_one(key: tuple):
     """Build the two config objects (grafting first, then preconditioner), then the optimizer.  Returns
     (class, beta3, start, guard_label, exception type name)."""
     m = _impl()
     st, ds, torch = m["st"], m["ds"], m["torch"]
     c = key_to_case(key)
+    v = c["variant"]
+    omit = v == "omit_defaults"
     phase = "graft"
     try:
         gk = c["gkind"]
+        gkw = {}
+        if gk in DOC_GRAFT_DEFAULTS:
+            if not (omit and _is(c, "geps", DOC_GRAFT_DEFAULTS[gk]["geps"])):
+                gkw["epsilon"] = c["geps"]
+            if gk != "adagrad" and not (omit and _is(c, "gb2", DOC_GRAFT_DEFAULTS[gk]["gb2"])):
+                gkw["beta2"] = c["gb2"]
         if gk == "none":
             graft = None
         elif gk == "sgd":
             graft = st.SGDGraftingConfig()
         elif gk == "adagrad":
-            graft = st.AdaGradGraftingConfig(epsilon=c["geps"])
+            graft = st.AdaGradGraftingConfig(**gkw)
         elif gk == "rmsprop":
-            graft = st.RMSpropGraftingConfig(epsilon=c["geps"], beta2=c["gb2"])
+            graft = st.RMSpropGraftingConfig(**gkw)
         elif gk == "adam":
-            graft = st.AdamGraftingConfig(epsilon=c["geps"], beta2=c["gb2"])
+            graft = st.AdamGraftingConfig(**gkw)
         else:
             graft = m["OtherG"]()
         phase = "pc"
         pk = c["pc_kind"]
-        kw = dict(num_tolerated_failed_amortized_computations=c["nt"], ignored_dims=list(c["ignored"]))
+        pc_is_default = _is(c, "nt", 3) and _is(c, "ignored", [])
+        kw = {}
+        if not (omit and _is(c, "nt", 3)):
+            kw["num_tolerated_failed_amortized_computations"] = c["nt"]
+        if not (omit and _is(c, "ignored", [])):
+            kw["ignored_dims"] = list(c["ignored"])
+        omit_pc = False
         if pk == "shampoo":
-            pc = st.ShampooPreconditionerConfig(**kw)
+            if v == "pc_singleton" and pc_is_default:
+                pc = st.DefaultShampooConfig
+            elif v == "amort_alt":
+                pc = st.ShampooPreconditionerConfig(amortized_computation_config=m["mft"].CoupledNewtonConfig(), **kw)
+            else:
+                pc = st.ShampooPreconditionerConfig(**kw)
+                omit_pc = omit and pc_is_default
         elif pk == "eigcorr":
-            pc = st.EigenvalueCorrectedShampooPreconditionerConfig(amortized_computation_config=m["QRConfig"](), **kw)
+            if v == "pc_singleton" and pc_is_default:
+                pc = st.DefaultSOAPConfig
+            elif v == "amort_alt":
+                pc = st.EigenvalueCorrectedShampooPreconditionerConfig(**kw)     # default: EighEigenvectorConfig
+            else:
+                pc = st.EigenvalueCorrectedShampooPreconditionerConfig(amortized_computation_config=m["QRConfig"](), **kw)
         else:
             pc = m["OtherPC"](**kw)
         phase = "init"
-        dcfg = None if c["dist"] == "none" else m["OtherD"]()
-        p = torch.nn.Parameter(torch.zeros(2, 3))
-        opt = ds.DistributedShampoo(
-            [p], lr=c["lr"], betas=(c["beta1"], c["beta2"]), beta3=c["beta3"], epsilon=c["epsilon"], momentum=c["momentum"], dampening=c["dampening"],
-            weight_decay=c["weight_decay"], max_preconditioner_dim=c["mpd"], precondition_frequency=c["freq"], start_preconditioning_step=c["start"],
-            inv_root_override=c["iro"], grafting_config=graft, distributed_config=dcfg, preconditioner_config=pc)
-        g0 = opt.param_groups[0]
-        return ("OK", enc(g0["beta3"]), enc(g0["start_preconditioning_step"]), None, None)
+        if c["dist"] == "none":
+            dcfg = None
+        elif c["dist"] == "ddp":
+            dcfg = st.DDPShampooConfig()
+        else:
+            dcfg = m["OtherD"]()
+        betas = [c["beta1"], c["beta2"]] if v == "betas_list" else (c["beta1"], c["beta2"])
+        args = dict(betas=betas, grafting_config=graft, distributed_config=dcfg, preconditioner_config=pc)
+        for a, name in KWNAME.items():
+            args[name] = c[a]
+        if omit:
+            for a, name in KWNAME.items():
+                if _is(c, a, DOC_DEFAULTS[a]):
+                    del args[name]
+            if _is(c, "beta1", 0.9) and _is(c, "beta2", 1.0):
+                del args["betas"]
+            if graft is None:
+                del args["grafting_config"]
+            if dcfg is None:
+                del args["distributed_config"]
+            if omit_pc:
+                del args["preconditioner_config"]
+        args.update({"nesterov": dict(use_nesterov=True), "no_bias_corr": dict(use_bias_correction=False), "coupled_wd": dict(use_decoupled_weight_decay=False),
+                     "no_merge": dict(use_merge_dims=False), "pdtype_f64": dict(preconditioner_dtype=torch.float64), "pdtype_bf16": dict(preconditioner_dtype=torch.bfloat16),
+                     "pdtype_f16": dict(preconditioner_dtype=torch.float16)}.get(v, {}))
+
+        def build():
+            opt = ds.DistributedShampoo(_make_params(m, v), **args)
+            got = [(enc(g["beta3"]), enc(g["start_preconditioning_step"])) for g in opt.param_groups]
+            if any(x != got[0] for x in got):
+                return ("Other", None, None, None, "ParamGroupsDiffer")
+            return ("OK", got[0][0], got[0][1], None, None)
+
+        if v == "twice":
+            first = None
+            try:
+                first = build()
+            except Exception as e:  # noqa
+                first = type(e).__name__
+            try:
+                second = build()
+            except Exception as e:  # noqa
+                if first != type(e).__name__:
+                    return ("Other", None, None, None, "SecondConstructionDiffers")
+                raise
+            return second if second == first else ("Other", None, None, None, "SecondConstructionDiffers")
+        return build()
     except NotImplementedError:
         return ("NotImplementedError", None, None, None, "NotImplementedError")
     except ValueError as e:
@@ -309,6 +397,13 @@ def run_one(key: tuple):
         return ("ValueError", None, None, lab, type(e).__name__)
     except Exception as e:  # noqa
         return ("Other", None, None, None, type(e).__name__)
+
+
+def _init_ddp():
+    """A 1-process gloo group, so that a real DDPShampooConfig can be dispatched (no network: in-memory HashStore)."""
+    import torch.distributed as dist
+    _impl()
+    dist.init_process_group("gloo", store=dist.HashStore(), rank=0, world_size=1)
 
 
 def run_chunk(keys):
@@ -460,9 +555,14 @@ def run(ck: Check) -> None:
 
     keys = list(cases)
     t_gen = time.time()
+    vi, di = AXES.index("variant"), AXES.index("dist")
+    plain = [k for k in keys if k[di][1] != "ddp"]
+    ddp = [k for k in keys if k[di][1] == "ddp"]
+    keys = plain + ddp
     with mp.get_context("fork").Pool(16) as pool:
-        chunks = list(common.chunks(keys, 200))
-        results = [r for rs in pool.map(run_chunk, chunks) for r in rs]
+        results = [r for rs in pool.map(run_chunk, list(common.chunks(plain, 200))) for r in rs]
+    with mp.get_context("fork").Pool(1, initializer=_init_ddp) as pool:      # one worker owning a 1-process gloo group
+        results += [r for rs in pool.map(run_chunk, list(common.chunks(ddp, 200))) for r in rs]
     pairs = list(zip(keys, results))
     t_impl = time.time()
 
@@ -556,9 +656,112 @@ def run(ck: Check) -> None:
         "guard_label_disagreements": len(gbad),
         "phase_seconds": {"proofs_and_generation": round(t_gen - ck.t0, 1), "implementation": round(t_impl - t_gen, 1), "coqc_case_files": round(t_coq - t_impl, 1)},
     })
+    # ---- quantifier audit: measured number of generated configurations per input class the property names or allows
+    def isnan(x):
+        return isinstance(x, float) and math.isnan(x)
+
+    def seq(x):
+        return isinstance(x, (list, tuple, range))
+
+    audit = {f"variant:{v}": 0 for v in VARIANTS if v != "std"}
+    tagmin = {}
+    for a in MODEL_AXES:
+        for t in ("boundary", "just_in", "just_out", "nan", "inf"):
+            if t in per_axis[a]:
+                tagmin[t] = min(tagmin.get(t, 10 ** 9), per_axis[a][t])
+    classes = {
+        "one hyperparameter varied (1-way grid, every value of every hyperparameter, both baselines)": lambda c, i, r: i["way"] == "1-way",
+        "two hyperparameters varied (full 2-way cross product of the grids)": lambda c, i, r: i["way"] == "2-way",
+        "three hyperparameters varied (sampled)": lambda c, i, r: i["way"] == "3-way",
+        "many hyperparameters varied (sampled)": lambda c, i, r: i["way"] == "random",
+        "accepted configurations (outcome OK: the inside of the domain)": lambda c, i, r: r[0] == "OK",
+        "NaN somewhere": lambda c, i, r: any(isnan(c[a]) for a in NUM_AXES) or (seq(c["iro"]) and any(isnan(e) for e in c["iro"])) or isnan(c["iro"]),
+        "NaN together with a second out-of-range value": lambda c, i, r: sum(t in ("nan",) for _, t in i["tags"]) >= 1 and sum(t in ("just_out", "far_out", "inf", "nan") for _, t in i["tags"]) >= 2,
+        "+-inf somewhere": lambda c, i, r: any(isinstance(c[a], float) and math.isinf(c[a]) for a in NUM_AXES),
+        "+-1 ulp next to a boundary (nextafter)": lambda c, i, r: any(t in ("just_in", "just_out") and isinstance(c[a], float) for a, t in i["tags"] if a in NUM_AXES),
+        "-0.0": lambda c, i, r: any(isinstance(c[a], float) and c[a] == 0.0 and math.copysign(1.0, c[a]) < 0 for a in NUM_AXES),
+        "int given where a float is documented / float where an int is documented": lambda c, i, r: any(t == "typemix" for _, t in i["tags"]),
+        "beta3 = -1 (int or float) with beta1 varied": lambda c, i, r: c["beta3"] == -1 and not _is(c, "beta1", 0.9),
+        "beta3 = -1 and beta1 = 0 (substituted value is a boundary)": lambda c, i, r: c["beta3"] == -1 and c["beta1"] == 0,
+        "start = -1 (int or float) with precondition_frequency varied": lambda c, i, r: c["start"] == -1 and not _is(c, "freq", 1) and not _is(c, "freq", 10),
+        "both -1 substitutions in one call": lambda c, i, r: c["beta3"] == -1 and c["start"] == -1,
+        "start in {f-1, f, f+1} for integer f = precondition_frequency >= 1": lambda c, i, r: isinstance(c["freq"], int) and not isinstance(c["start"], float) and c["freq"] >= 1 and c["start"] - c["freq"] in (-1, 0, 1),
+        "start strictly between -1 and precondition_frequency": lambda c, i, r: not isnan(c["start"]) and not isnan(c["freq"]) and -1 < c["start"] < c["freq"],
+        "ints beyond 2^53 compared with floats (exact int/float comparison)": lambda c, i, r: (isinstance(c["freq"], int) and abs(c["freq"]) > 2 ** 53 and isinstance(c["start"], float)) or (isinstance(c["start"], int) and abs(c["start"]) > 2 ** 53 and isinstance(c["freq"], float)),
+        "max_preconditioner_dim at 2^31-1 / 2^31 / 2^63-1 / 2^63": lambda c, i, r: c["mpd"] in (2 ** 31 - 1, 2 ** 31, I63 - 1, I63),
+        "max_preconditioner_dim = 1 (finest blocking)": lambda c, i, r: _is(c, "mpd", 1),
+        "inv_root_override as list": lambda c, i, r: isinstance(c["iro"], list),
+        "inv_root_override as tuple": lambda c, i, r: isinstance(c["iro"], tuple),
+        "inv_root_override as range (another Sequence)": lambda c, i, r: isinstance(c["iro"], range),
+        "inv_root_override empty sequence": lambda c, i, r: seq(c["iro"]) and len(c["iro"]) == 0,
+        "inv_root_override sequence with a negative / NaN entry": lambda c, i, r: seq(c["iro"]) and any(isnan(e) or e < 0 for e in c["iro"]),
+        "ignored dims non-empty with override 0 / 0.0 / -0.0": lambda c, i, r: len(c["ignored"]) > 0 and not seq(c["iro"]) and c["iro"] == 0,
+        "ignored dims non-empty with a non-zero scalar override": lambda c, i, r: len(c["ignored"]) > 0 and not seq(c["iro"]) and c["iro"] != 0,
+        "ignored dims non-empty with a sequence override (even all-zero)": lambda c, i, r: len(c["ignored"]) > 0 and seq(c["iro"]),
+        "ignored dims with a repeated entry": lambda c, i, r: len(set(c["ignored"])) != len(c["ignored"]),
+        "ignored dims out of the parameter's order (5, -1)": lambda c, i, r: any(d in (5, -1) for d in c["ignored"]),
+        "grafting None / SGD (no validated field)": lambda c, i, r: c["gkind"] in ("none", "sgd"),
+        "AdaGrad grafting with epsilon varied": lambda c, i, r: c["gkind"] == "adagrad" and not _is(c, "geps", 1e-10) and not _is(c, "geps", 1e-8),
+        "RMSprop grafting with epsilon or beta2 varied": lambda c, i, r: c["gkind"] == "rmsprop" and any(a in ("geps", "gb2") for a, _ in i["tags"]),
+        "Adam grafting with epsilon or beta2 varied": lambda c, i, r: c["gkind"] == "adam" and any(a in ("geps", "gb2") for a, _ in i["tags"]),
+        "RMSprop/Adam grafting with epsilon AND beta2 both out of range": lambda c, i, r: c["gkind"] in ("rmsprop", "adam") and not (c["geps"] > 0) and not (0 < c["gb2"] <= 1),
+        "Shampoo preconditioner config": lambda c, i, r: c["pc_kind"] == "shampoo",
+        "eigenvalue-corrected (SOAP) preconditioner config": lambda c, i, r: c["pc_kind"] == "eigcorr",
+        "num_tolerated_failed_amortized_computations at 0 / -1": lambda c, i, r: c["nt"] in (0, -1),
+        "unsupported grafting config type": lambda c, i, r: c["gkind"] == "unsupported",
+        "unsupported preconditioner config type": lambda c, i, r: c["pc_kind"] == "unsupported",
+        "unsupported distributed config type": lambda c, i, r: c["dist"] == "unsupported",
+        "unsupported type together with an out-of-range value (ValueError must win)": lambda c, i, r: "unsupported" in (c["gkind"], c["pc_kind"], c["dist"]) and r[0] == "ValueError",
+        "two unsupported types at once": lambda c, i, r: [c["gkind"], c["pc_kind"], c["dist"]].count("unsupported") >= 2,
+        "supported distributed config: DDPShampooConfig on a 1-process gloo group": lambda c, i, r: c["dist"] == "ddp",
+        "DDPShampooConfig with an out-of-range value": lambda c, i, r: c["dist"] == "ddp" and r[0] == "ValueError",
+        "pc_singleton variant actually using the module-level default object": lambda c, i, r: c["variant"] == "pc_singleton" and c["pc_kind"] != "unsupported" and _is(c, "nt", 3) and _is(c, "ignored", []),
+        "a harness-only variant together with an out-of-range value": lambda c, i, r: c["variant"] != "std" and r[0] == "ValueError",
+        "a harness-only variant with an accepted configuration": lambda c, i, r: c["variant"] != "std" and r[0] == "OK",
+    }
+    for nm in classes:
+        audit[nm] = 0
+    for k, r in pairs:
+        c, info = key_to_case(k), cases[k]
+        if c["variant"] != "std":
+            audit[f"variant:{c['variant']}"] += 1
+        for nm, pred in classes.items():
+            try:
+                audit[nm] += bool(pred(c, info, r))
+            except TypeError:
+                pass
+    for t, n in tagmin.items():
+        audit[f"'{t}' value of a hyperparameter: fewest cases over all 18 model hyperparameters having such a value"] = n
+    ck.coverage["quantifier_audit"] = audit
+    ck.coverage["not_exercised"] = {
+        "FSDPShampooConfig / HSDPShampooConfig / FullyShardShampooConfig / HybridShardShampooConfig": "need sharded (DTensor / flat-shard) parameters and a device mesh; their dispatch arms have the same form as the DDP arm, which is exercised; C07/C08 construct them under stubs",
+        "DDPShampooConfig with world size > 1": "needs several processes; C06 constructs it under the rank simulator",
+        "per-group hyperparameter overrides inside params=[{...}]": "DistributedShampoo validates and resolves only the constructor arguments (torch.optim semantics); the property's observable is the param_groups *defaults*.  Probed, not judged: see per_group_override_probe",
+        "numpy / torch-tensor scalars and bool for numeric hyperparameters": "documented types are Python float / int; bool for max_preconditioner_dim is rejected by torch.split",
+        "ignored_dims given as a tuple, a str as inv_root_override": "documented types are list[int] and int | Sequence[int]",
+        "shampoo_pt2_compile_config other than None": "not validated by the constructor; compiled construction is C18's subject",
+        "CUDA parameters / devices": "no GPU in the sandbox",
+        "sequence inv_root_override with step != 1 ranges or user-defined Sequence classes": "list, tuple and range cover isinstance(..., Sequence)",
+    }
+
+    # per-group overrides: what the constructor does with them (information for the coordinator; no verdict)
+    probe = {}
+    try:
+        m = _impl()
+        for ov in (dict(lr=-1.0), dict(beta3=-1.0), dict(start_preconditioning_step=-1), dict(betas=(1.0, 1.0)), dict(epsilon=0.0), dict(weight_decay=NAN)):
+            try:
+                o = m["ds"].DistributedShampoo([{"params": [m["torch"].nn.Parameter(m["torch"].zeros(2, 3))], **ov}], betas=(0.5, 1.0), precondition_frequency=5)
+                g = o.param_groups[0]
+                probe[repr(ov)] = f"accepted; group holds beta3={g['beta3']!r} start={g['start_preconditioning_step']!r} {next(iter(ov))}={g[next(iter(ov))]!r}"
+            except Exception as e:  # noqa
+                probe[repr(ov)] = f"{type(e).__name__}: {str(e)[:80]}"
+    except Exception as e:  # noqa
+        probe["error"] = repr(e)
+    ck.coverage["per_group_override_probe"] = probe
+
     ck.assumptions += [
         "config objects are built grafting first, preconditioner second, then DistributedShampoo(...) (only affects which ValueError comes first)",
-        "one parameter group with one dense 2x3 float32 parameter; distributed_config None or an unsupported DistributedConfig subclass",
+        "the model has one dense parameter in one group and distributed_config None/unsupported; the harness-only `variant` axis (other parameter shapes/dtypes, two groups, unvalidated flags, preconditioner_dtype, config-object reuse, omitted arguments) and a real 1-process DDPShampooConfig check that the outcome does not depend on them",
         "float hyperparameters are written to the case files as exact rationals (float.as_integer_ratio), ints exactly",
     ]
     ck.gen_equiv_verdict()
